@@ -1255,6 +1255,13 @@ func (g *FnGen) checkSharedKey(ins ssa.Instruction, key, base string, pos token.
 		return
 	}
 	tn := key[2:strings.LastIndex(key, ".")]
+	if g.S.SharedTypes[tn] && !g.S.Guarded[key] && !(g.root().C != nil && g.root().C.OnceGuarded) {
+		// holding a lock justifies writing the fields declared as guarded by it, nothing else: a
+		// new mutable field of a shared node type needs a declaration (and with it a reason why
+		// concurrent callers still see what they see alone)
+		g.oblige("shared-write", g.siteNames[ins]+":"+tn+":undeclared:"+key[strings.LastIndex(key, ".")+1:], g.curGuard, g.isFresh(base), "field of a shared node type that is not declared guarded is written only on a fresh object", pos)
+		return
+	}
 	g.checkSharedType(ins, tn, base, pos)
 }
 
@@ -1280,6 +1287,14 @@ func (g *FnGen) checkSharedWrite(ins ssa.Instruction, ref, what string, pos toke
 		return
 	}
 	ov := g.val(owner)
+	if fa, ok := mu.Map.(*ssa.UnOp).X.(*ssa.FieldAddr); ok {
+		if st, _ := derefStruct(fa.X.Type()); st != nil {
+			if key, _ := g.D.fieldKey(st, fa.Field); !g.S.Guarded[key] {
+				g.oblige("shared-write", g.siteNames[ins]+":"+ownerT+":undeclared-map", g.curGuard, or(g.isFresh(ref), g.isFresh(ov.T)), "map held in a field of a shared node type that is not declared guarded is written only when fresh", pos)
+				return
+			}
+		}
+	}
 	g.oblige("shared-write", g.siteNames[ins]+":"+ownerT, g.curGuard, or(g.isFresh(ref), g.isFresh(ov.T), g.lockHeldFor(ownerT, ov.T)), "map held by a shared node is written only when fresh or under its lock", pos)
 }
 
